@@ -533,6 +533,25 @@ def _um_heading(ctx, kids):
     ctx.close()
 
 
+@reg('um_headq', slots=1, cls='user')
+def _um_headq(ctx, kids):
+    # a heading whose last token is a user macro ending in a question mark: the expansion decides, no dot is added
+    if not getattr(ctx, 'headq_declared', False):
+        ctx.headq_declared = True
+        ctx.w('\\newcommand{\\mUq}[1]{#1?}')
+        ctx.gap()
+    ctx.open('um_headq-frame', WS)
+    ctx.w('\\section{')
+    n = ctx.open('um_headq', WS)
+    ctx.w('\\mUq{')
+    slot(ctx, kids[0])
+    ctx.w('}')
+    ctx.gen('?', n)
+    ctx.close()
+    ctx.w('}')
+    ctx.close()
+
+
 @reg('accentverb', cls='special')
 def _accentverb(ctx, kids):
     # an accent applied to the first character of verbatim text: the rest keeps its own offsets
